@@ -172,78 +172,98 @@ def check_case(ctx, case):
             scale["compressed_segmentation_block_size"] = list(block)
         info = ds.make_info(case["out"], nch, [scale],
                             "segmentation" if block else "image")
-        dest = os.path.join(d, "out")
-        os.makedirs(dest)
-        with open(os.path.join(dest, "info"), "w") as f:
-            json.dump(info, f)
-        flat = case["acc"].startswith("flat")
-        gz = case["acc"].endswith("_gz")
         from pathlib import Path
-        try:
-            with ds.captured_atexit():
-                if case["cli"]:
-                    argv = ["slices-to-precomputed"] + dirs + [
-                        dest, "--input-orientation", code.lower()
-                        if case["seed"] % 2 else code]
-                    if flat:
-                        argv.append("--flat")
-                    if not gz:
-                        argv.append("--no-gzip")
-                    rc = s2p.main(argv)
-                    if rc:
-                        ctx.fail("slices-to-precomputed returned %r" % rc)
-                else:
-                    if not flat and gz:
-                        # the documented defaults: no options argument
-                        s2p.convert_slices_in_directory(
-                            [Path(p) for p in dirs], dest, code)
+        use_lists = not case["cli"] and case["seed"] % 3 == 0
+        file_lists = [sorted(Path(p).iterdir()) for p in dirs]
+        lists_before = [list(fl) for fl in file_lists]
+        # (with explicit lists the same list objects serve two conversions)
+        for dest_name in (("out", "out_again") if use_lists else ("out",)):
+            dest = os.path.join(d, dest_name)
+            os.makedirs(dest)
+            with open(os.path.join(dest, "info"), "w") as f:
+                json.dump(info, f)
+            flat = case["acc"].startswith("flat")
+            gz = case["acc"].endswith("_gz")
+            from pathlib import Path
+            try:
+                with ds.captured_atexit():
+                    if case["cli"]:
+                        argv = ["slices-to-precomputed"] + dirs + [
+                            dest, "--input-orientation", code.lower()
+                            if case["seed"] % 2 else code]
+                        if flat:
+                            argv.append("--flat")
+                        if not gz:
+                            argv.append("--no-gzip")
+                        rc = s2p.main(argv)
+                        if rc:
+                            ctx.fail("slices-to-precomputed returned %r" % rc)
+                    elif use_lists:
+                        # the documented lower-level entry point: explicit
+                        # lists of files (one per channel); the caller keeps
+                        # its lists and uses them again
+                        if not flat and gz:
+                            s2p.slices_to_raw_chunks(file_lists, dest, code)
+                        else:
+                            s2p.slices_to_raw_chunks(
+                                file_lists, dest, code,
+                                options={"flat": flat, "gzip": gz})
+                        if [list(fl) for fl in file_lists] != lists_before:
+                            # not a violation by itself: the second volume
+                            # made from the same list objects decides
+                            ctx.count("callers_lists_changed")
                     else:
-                        s2p.convert_slices_in_directory(
-                            [Path(p) for p in dirs], dest, code,
-                            options={"flat": flat, "gzip": gz})
-        except SystemExit as exc:
-            ctx.fail("command exited with %r" % (exc.code,))
-        except Exception as exc:
-            from vlib.runner import _from_repo
-            if not _from_repo(exc):
-                raise
-            ctx.fail("conversion with orientation %s failed: %s %s (cols,"
-                     "rows,slices=%s chunk %s layout %s)" % (
-                         code, type(exc).__name__, exc, case["n"],
-                         case["chunk"], case["layout"]))
-        pio = ds.open_dataset(dest)
-        try:
-            got = ds.read_scale(pio, info["scales"][0], case["out"], nch)
-        except Exception as exc:
-            ctx.fail("orientation %s: not all chunks of the full-resolution "
-                     "scale can be read back: %s %s (n=%s chunk %s)" % (
-                         code, type(exc).__name__, exc, case["n"],
-                         case["chunk"]))
-        X, Y, Z = size
-        hi_out = None
-        if np.dtype(case["out"]).kind == "u":
-            hi_out = int(np.iinfo(case["out"]).max)
-        for c in range(nch):
-            for z in range(Z):
-                for y in range(Y):
-                    for x in range(X):
-                        q, r, s = orient_ref.source_index(code, ncol, nrow,
-                                                          nsl, x, y, z)
-                        want = stack[c, s, r, q]
-                        if hi_out is not None and want > hi_out:
-                            # narrowing target (only generated by the C11
-                            # sub-check "slices"): saturation, never wrap
-                            want = np.dtype(case["out"]).type(hi_out)
-                        if got[c, z, y, x] != want:
-                            ctx.fail("orientation %s: output voxel (x,y,z)="
-                                     "(%d,%d,%d) channel %d holds %r, the "
-                                     "code designates input pixel (column %d,"
-                                     " row %d, slice %d) = %r (cols,rows,"
-                                     "slices=%s chunk %s layout %s)" % (
-                                         code, x, y, z, c,
-                                         got[c, z, y, x].item(), q, r, s,
-                                         want.item(), case["n"],
-                                         case["chunk"], case["layout"]))
+                        if not flat and gz:
+                            # the documented defaults: no options argument
+                            s2p.convert_slices_in_directory(
+                                [Path(p) for p in dirs], dest, code)
+                        else:
+                            s2p.convert_slices_in_directory(
+                                [Path(p) for p in dirs], dest, code,
+                                options={"flat": flat, "gzip": gz})
+            except SystemExit as exc:
+                ctx.fail("command exited with %r" % (exc.code,))
+            except Exception as exc:
+                from vlib.runner import _from_repo
+                if not _from_repo(exc):
+                    raise
+                ctx.fail("conversion with orientation %s failed: %s %s (cols,"
+                         "rows,slices=%s chunk %s layout %s)" % (
+                             code, type(exc).__name__, exc, case["n"],
+                             case["chunk"], case["layout"]))
+            pio = ds.open_dataset(dest)
+            try:
+                got = ds.read_scale(pio, info["scales"][0], case["out"], nch)
+            except Exception as exc:
+                ctx.fail("orientation %s: not all chunks of the full-resolution "
+                         "scale can be read back: %s %s (n=%s chunk %s)" % (
+                             code, type(exc).__name__, exc, case["n"],
+                             case["chunk"]))
+            X, Y, Z = size
+            hi_out = None
+            if np.dtype(case["out"]).kind == "u":
+                hi_out = int(np.iinfo(case["out"]).max)
+            for c in range(nch):
+                for z in range(Z):
+                    for y in range(Y):
+                        for x in range(X):
+                            q, r, s = orient_ref.source_index(code, ncol, nrow,
+                                                              nsl, x, y, z)
+                            want = stack[c, s, r, q]
+                            if hi_out is not None and want > hi_out:
+                                # narrowing target (only generated by the C11
+                                # sub-check "slices"): saturation, never wrap
+                                want = np.dtype(case["out"]).type(hi_out)
+                            if got[c, z, y, x] != want:
+                                ctx.fail("orientation %s: output voxel (x,y,z)="
+                                         "(%d,%d,%d) channel %d holds %r, the "
+                                         "code designates input pixel (column %d,"
+                                         " row %d, slice %d) = %r (cols,rows,"
+                                         "slices=%s chunk %s layout %s)" % (
+                                             code, x, y, z, c,
+                                             got[c, z, y, x].item(), q, r, s,
+                                             want.item(), case["n"],
+                                             case["chunk"], case["layout"]))
         # slice axis of the chunk grid
         slice_axis = orient_ref.AXIS[code[2]]
         depth = case["chunk"][slice_axis]
@@ -287,7 +307,9 @@ def run(ctx, n):
                                   "pix." + case["pix"],
                                   "reversed_slices" if case["code"][2] in "LPI"
                                   else "forward_slices",
-                                  "cli" if case["cli"] else "api",
+                                  "cli" if case["cli"] else
+                                  "explicit_lists_twice"
+                                  if case["seed"] % 3 == 0 else "api",
                                   "enc.cseg" if case.get("block") else
                                   "enc.raw",
                                   "naming." + case.get("naming", "padded"),
